@@ -49,6 +49,7 @@ TRUSTED = [
     'coq/Sem/Val.v: model of scipp unit algebra and dtype promotion (the promotion table itself is what the grid run validates)',
     'coq/Sem/RInst.v: multiplier equality in + - <= where is not decided over R (fail-closed); decided over Q',
     'tools/harness/kernels_impl.py + lib/kcorr.py',
+    'tools/harness/c07_layouts.py (runner for calls on operands of arbitrary layouts)',
 ]
 ASSUMPTIONS = [
     'equivariance/dtype theorems cover the tof.py kernels (C01 + C05 sets); beamline/gravity kernels are covered by C03/C04 '
@@ -221,6 +222,7 @@ def correspondence(ctx):
         'disagreements': len(fails),
     })
     ctx.coverage['geometry_kernel_unit_variants'] = geometry_equivariance(ctx, rng)
+    ctx.coverage.update(layout_sweep(ctx, rng))
 
 
 # ---- geometry kernels (beamline.py): the equivariance statement evaluated on the implementation.  Their model-side
@@ -331,6 +333,304 @@ def geometry_equivariance(ctx, rng):
     return n
 
 
+# ---- operand LAYOUTS.  The property quantifies over unit x dtype per argument; the kernels are array functions, so
+# the same statement must hold whatever the dims of the operands are (0-d, 1-d, n-d; shared between operands or
+# not): which dims an operand has decides which code path combines it with the others (in-place accumulation when
+# its dims are contained in the accumulator's, a broadcasting binary operation otherwise), and scipp's binary
+# operations promote float32 x float64 to float64.  Evaluated on the implementation (tools/harness/c07_layouts.py):
+#   * dtype contract: gravity kernels return the dtype of the wavelength (their documented/tested contract, and
+#     TieC04.drop_formula / orthogonal_value / yz_plane_formula for BOTH values of dims_subset), two_theta float64,
+#     tof kernels float32 iff every data operand is float32;
+#   * documented output unit;  result dims = union of the operand dims;
+#   * every result element = the result of the all-0-d call on that element's operands (float64, SI units for the
+#     geometry kernels; the same units/dtypes for the tof kernels), up to rounding;
+#   * a layout is accepted or refused uniformly over the unit choices and float dtypes.
+SIZES = {'det': 3, 'wavelength': 2, 'pix': 2, 'event': 2}
+WL_LAYOUTS = [[], ['wavelength'], ['det'], ['det', 'wavelength'], ['wavelength', 'det']]
+SB_LAYOUTS = [[], ['det'], ['det', 'pix']]
+IB_LAYOUTS = [[], ['det']]
+WI = [2e-10, 6e-10, 24e-10]      # wavelength along 'det' (integers in angstrom, for the integer dtypes)
+WJ = [2e-10, 24e-10]             # wavelength along 'wavelength'
+B2S = [[0.3, 0.4, 2.0], [-0.5, 0.25, 1.5], [0.1, -0.6, 0.8]]
+GRAV = [0.0, -9.80665, 0.0]
+
+
+def _indices(dims):
+    """all multi-indices (dicts dim -> index) of an array with these dims, in C order"""
+    out = [{}]
+    for d in dims:
+        out = [dict(ix, **{d: n}) for ix in out for n in range(SIZES[d])]
+    return out
+
+
+def _phys_b1(tilt, i):
+    import math
+    return [0.01 * i, 7.5 * math.sin(tilt), 7.5 * math.cos(tilt)]
+
+
+def _phys_b2(i, k):
+    return [c * (1 + 0.1 * k) for c in B2S[i]]
+
+
+def _phys_wl(dims, ix):
+    if not dims:
+        return WI[1]
+    if dims == ['det']:
+        return WI[ix['det']]
+    if dims == ['wavelength']:
+        return WJ[ix['wavelength']]
+    return WJ[ix['wavelength']] * (1 + 0.5 * ix['det'])
+
+
+def _lvec(dims, fn, unit):
+    return {'dims': dims, 'shape': [SIZES[d] for d in dims], 'dtype': 'vector3', 'unit': unit[0],
+            'values': [[float(c / unit[1]).hex() for c in fn(ix)] for ix in _indices(dims)]}
+
+
+def _lnum(dims, fn, unit, dtype):
+    vals = []
+    for ix in _indices(dims):
+        v = fn(ix) / unit[1]
+        vals.append(int(round(v)) if dtype.startswith('int') else float(v).hex())
+    return {'dims': dims, 'shape': [SIZES[d] for d in dims], 'dtype': dtype, 'unit': unit[0], 'values': vals}
+
+
+def geometry_layout_cases(rng, n_variants, int_every=4):
+    """cases of the gravity kernels and two_theta over operand layouts x wavelength dtype x unit variants, plus the
+    0-d float64 SI reference calls their elements are compared with"""
+    cases, refs = [], {}
+
+    def ref(kname, call, tilt, ib, sb, w):
+        key = (kname, tilt, ib, sb, w)
+        if key not in refs:
+            ops = {'incident_beam': _lvec([], lambda ix: _phys_b1(tilt, ib), LEN_U[0]),
+                   'scattered_beam': _lvec([], lambda ix: _phys_b2(*sb), LEN_U[0])}
+            if w is not None:
+                ops['wavelength'] = _lnum([], lambda ix: w, WL_U[2], 'float64')
+                ops['gravity'] = _lvec([], lambda ix: GRAV, G_U[0])
+            refs[key] = {'id': None, 'kname': kname, 'call': call, 'operands': ops, 'reference': True}
+        return refs[key]
+
+    def add(kname, call, tilt, ibd, sbd, wld, wdt, units):
+        lu1, lu2, wu, gu = units
+        ops = {'incident_beam': _lvec(ibd, lambda ix: _phys_b1(tilt, ix.get('det', 0)), lu1),
+               'scattered_beam': _lvec(sbd, lambda ix: _phys_b2(ix.get('det', 0), ix.get('pix', 0)), lu2)}
+        out_dims = set(ibd) | set(sbd)
+        if wld is not None:
+            ops['wavelength'] = _lnum(wld, lambda ix: _phys_wl(wld, ix), wu, wdt)
+            ops['gravity'] = _lvec([], lambda ix: GRAV, gu)
+            out_dims |= set(wld)
+
+        def elem_ref(ix):
+            return ref(kname, call, tilt, ix.get('det', 0) if ibd else 0,
+                       (ix.get('det', 0) if 'det' in sbd else 0, ix.get('pix', 0) if 'pix' in sbd else 0),
+                       None if wld is None else _phys_wl(wld, ix))
+        for ix in _indices(sorted(out_dims)):
+            elem_ref(ix)          # registers the reference calls this case needs
+        cases.append({'id': None, 'kname': kname, 'call': call, 'operands': ops, 'out_dims': sorted(out_dims),
+                      'elem_ref': elem_ref,
+                      'layout': {'incident_beam': ibd, 'scattered_beam': sbd, 'wavelength': wld},
+                      'variant': {'incident_length': lu1[0], 'scattered_length': lu2[0],
+                                  'wavelength': None if wld is None else wu[0], 'gravity': None if wld is None else gu[0],
+                                  'wavelength_dtype': wdt, 'tilt': tilt},
+                      'want_dtype': (wdt if wdt.startswith('float') else None) if wld is not None else 'float64'})
+
+    si = (LEN_U[0], LEN_U[0], WL_U[2], G_U[0])
+    n = 0
+    for kname, fn, tilt in (('scattering_angles_with_gravity', 'scattering_angles_with_gravity', 0.0),
+                            ('scattering_angles_with_gravity[generic]', 'scattering_angles_with_gravity', 0.3),
+                            ('scattering_angle_in_yz_plane', 'scattering_angle_in_yz_plane', 0.0)):
+        for ibd, sbd, wld in itertools.product(IB_LAYOUTS, SB_LAYOUTS, WL_LAYOUTS):
+            for wdt in ('float64', 'float32'):
+                variants = [si] if wdt == 'float64' else []
+                while len(variants) < n_variants:
+                    variants.append((rng.choice(LEN_U), rng.choice(LEN_U), rng.choice(WL_U), rng.choice(G_U)))
+                for u in variants:
+                    add(kname, BL + fn, tilt, ibd, sbd, wld, wdt, u)
+            n += 1
+            if n % int_every == 0:      # integer wavelengths (whole numbers of angstrom): one unit variant per layout
+                add(kname, BL + fn, tilt, ibd, sbd, wld, rng.choice(['int64', 'int32']),
+                    (rng.choice(LEN_U), rng.choice(LEN_U), WL_U[0], rng.choice(G_U)))
+    for ibd, sbd in itertools.product(IB_LAYOUTS, SB_LAYOUTS):
+        for u in [si] + [(rng.choice(LEN_U), rng.choice(LEN_U), None, None) for _ in range(max(1, n_variants - 1))]:
+            add('two_theta', BL + 'two_theta', 0.0, ibd, sbd, None, 'float64', u)
+    allc = cases + list(refs.values())
+    for i, c in enumerate(allc):
+        c['id'] = i
+    return allc
+
+
+LAYOUT_PATTERNS = [   # (dims of the data operands, dims of the other operands)
+    (['event'], []), (['det', 'event'], ['det']), (['event'], ['det']), (['det'], ['det']), ([], ['det']),
+    (['event', 'det'], ['det'])]
+
+
+def tof_layout_cases(rng, n_points):
+    """grid points (unit x dtype per argument) of the tof.py kernels with their operands replicated into arrays of
+    several layouts; the 0-d call on the same operands is the reference"""
+    cases = []
+    for kname, data in DATA_OPERANDS.items():
+        allc = list(grid(kname))
+        for ops in rng.sample(allc, min(len(allc), n_points)):
+            def spec(o, dims):
+                nel = 1
+                for d in dims:
+                    nel *= SIZES[d]
+                return {'dims': dims, 'shape': [SIZES[d] for d in dims], 'dtype': o['dtype'], 'unit': o['unit'],
+                        'values': [o['values'][0]] * nel}
+            ref = {'id': None, 'kname': kname, 'call': M + kname, 'reference': True,
+                   'operands': {nm: spec(o, []) for nm, o in ops.items()}}
+            cases.append(ref)
+            for dd, od in rng.sample(LAYOUT_PATTERNS, 3):
+                cops = {nm: spec(o, dd if nm in data else od) for nm, o in ops.items()}
+                cases.append({'id': None, 'kname': kname, 'call': M + kname, 'operands': cops,
+                              'out_dims': sorted({x for o in cops.values() for x in o['dims']}), 'elem_ref': (lambda ix, ref=ref: ref),
+                              'layout': {nm: o['dims'] for nm, o in cops.items()},
+                              'variant': {nm: [o['unit'], o['dtype']] for nm, o in ops.items()},
+                              'want_dtype': 'float32' if all(ops[nm]['dtype'] == 'float32' for nm in data) else 'float64',
+                              'same_as_ref': True})
+    for i, c in enumerate(cases):
+        c['id'] = i
+    return cases
+
+
+def layout_contract(ctx, cases, label):
+    """runs the cases and evaluates the layout-independent statement listed above; returns coverage numbers"""
+    wire = [{k: c[k] for k in ('id', 'call', 'operands')} for c in cases]
+    res = ctx.run_impl('c07_layouts.py', {'cases': wire}, timeout=3000)
+    by_id = {r['id']: r for r in res['cases']}
+    outcome = {}
+    n_elem = n_ref = n_refused_both = 0
+    refused, int_refused = set(), {}
+    for c in cases:
+        r = by_id[c['id']]
+        if c.get('reference'):
+            n_ref += 1
+            continue
+        if 'build_error' in r:
+            continue
+        k = c['kname']
+        d = {'kernel': k, 'layout': c['layout'], 'variant': c['variant'], 'call': c['call'], 'operands': c['operands']}
+        cls = (k, repr(c['layout']), 'int' if c['want_dtype'] is None else 'float')
+        if 'vars' not in r:
+            d['error'] = f'{r.get("error")}: {r.get("error_text")}'
+            if c.get('same_as_ref'):
+                # tof kernels: refused in this layout iff the same operands are refused as 0-d variables
+                rr = by_id[c['elem_ref']({})['id']]
+                n_refused_both += 1
+                if rr.get('error') != r.get('error'):
+                    ctx.violation(f'{k}:layout-refused',
+                                  f'{k}: operands in layout {c["layout"]} are refused ({d["error"]}) but as 0-d variables they give '
+                                  f'{rr.get("error") or "a result"}: {d}', d)
+                continue
+            outcome.setdefault(cls, []).append((r.get('error'), d))
+            if c['want_dtype'] is None:
+                int_refused[k + ': ' + str(r.get('error'))] = int_refused.get(k + ': ' + str(r.get('error')), 0) + 1
+            else:
+                refused.add(f'{k} {c["layout"]}: {r.get("error")}')
+            continue
+        if c.get('same_as_ref'):
+            cls = (k, repr(c['layout']), repr(c['variant']))
+        outcome.setdefault(cls, []).append(('ok', d))
+        for key, v in r['vars'].items():
+            name = k + ('.' + key if key else '')
+            d2 = dict(d, result={kk: v.get(kk) for kk in ('dims', 'shape', 'dtype')}, result_unit=(v.get('unit') or {}).get('name'))
+            if 'values' not in v:
+                ctx.violation(f'{name}:layout-result', f'{name}: the result is not a numeric variable: {d2}', d2)
+                continue
+            want = c['want_dtype'] or 'float64'
+            if v['dtype'] != want:
+                ctx.violation(f'{name}:layout-dtype-contract',
+                              f'{name}: result dtype {v["dtype"]} where the documented contract gives {want} '
+                              f'(operand layout {c["layout"]}, variant {c["variant"]})', d2)
+            if sorted(v['dims']) != c['out_dims']:
+                ctx.violation(f'{name}:layout-dims', f'{name}: result dims {v["dims"]} are not the union {c["out_dims"]} of the operand dims: {d2}', d2)
+                continue
+            is32 = v['dtype'] == 'float32' or any(o['dtype'] == 'float32' for o in c['operands'].values())
+            et = k.startswith('energy_transfer')
+            mult = v['unit']['mult'] if v.get('unit') else 1.0
+            for ix, got in zip(_indices(v['dims']), v['values']):
+                rc = c['elem_ref'](ix)
+                rr = by_id[rc['id']]
+                rv = (rr.get('vars') or {}).get(key)
+                if rv is None or 'values' not in rv:
+                    ctx.violation(f'{name}:layout-refused',
+                                  f'{name}: operands accepted in layout {c["layout"]} are refused as 0-d operands '
+                                  f'({rr.get("error")}: {rr.get("error_text")})', dict(d2, reference=rc['operands']))
+                    break
+                n_elem += 1
+                want_v = rv['values'][0]
+                rmult = rv['unit']['mult'] if rv.get('unit') else 1.0
+                if (v.get('unit') or {}).get('dims') != (rv.get('unit') or {}).get('dims') or \
+                        (c.get('same_as_ref') and abs(mult - rmult) > 1e-12 * rmult):
+                    ctx.violation(f'{name}:layout-output-unit',
+                                  f'{name}: output unit {d2["result_unit"]} in layout {c["layout"]} but {rv["unit"]["name"]} for 0-d operands', d2)
+                    break
+                if isinstance(got, str) or isinstance(want_v, str):
+                    bad = got != want_v
+                else:
+                    a, b = got * mult, want_v * rmult
+                    if c.get('same_as_ref'):
+                        tol = ((2e-5 if et else 2e-6) if is32 else (1e-11 if et else 1e-12)) * max(abs(b), 1e-300)
+                    else:
+                        tol = 2e-6 if is32 else 1e-12      # angles: absolute
+                    bad = abs(a - b) > tol
+                if bad:
+                    ctx.violation(f'{name}:layout-value',
+                                  f'{name}: element {ix} of the result in layout {c["layout"]} ({c["variant"]}) is {got} {d2["result_unit"]}; '
+                                  f'the call on that element\'s operands as 0-d variables gives {want_v} {rv["unit"]["name"] if rv.get("unit") else ""}',
+                                  dict(d2, element=ix, got=got, reference_value=want_v, reference=rc['operands']))
+                    break
+            if 'unit' in v and not c.get('same_as_ref') and (v['unit'] or {}).get('name') != 'rad':
+                ctx.violation(f'{name}:layout-output-unit', f'{name}: output unit {d2["result_unit"]} is not rad: {d2}', d2)
+    for (k, lay, kind), lst in outcome.items():
+        kinds = {o for o, _ in lst}
+        if len(kinds) > 1:
+            okd = next(d for o, d in lst if o == 'ok')
+            bad = next(d for o, d in lst if o != 'ok')
+            ctx.violation(f'{k}:layout-refused',
+                          f'{k}: operands in layout {lay} are accepted in one unit/dtype variant ({okd["variant"]}) and refused '
+                          f'in another ({bad["variant"]}: {bad["error"]})', {'case': bad, 'accepted': okd})
+    # integer wavelengths: the kernels either serve them (in double precision, checked above) or refuse them, in
+    # every layout alike
+    ints = {}
+    for (k, lay, kind), lst in outcome.items():
+        if kind == 'int':
+            for o, d in lst:
+                ints.setdefault(k, {}).setdefault('served' if o == 'ok' else 'refused', d)
+    for k, dd in ints.items():
+        if 'refused' in dd and 'served' not in dd and label.startswith('geometry'):
+            # the property: "every other numeric operand type gives double precision" - a uniform refusal of integer
+            # wavelengths is a (documented below) departure from it
+            d = dd['refused']
+            ctx.violation(f'{k.split(".")[0]}:integer-wavelength-refused',
+                          f'{k}: an integer-dtype wavelength is refused ({d.get("error")}) in every layout and unit although it is a '
+                          f'numeric operand type (the tof.py kernels serve integer data operands in double precision): {d}', {'case': d})
+        if len(dd) > 1:
+            ctx.violation(f'{k}:layout-integer-wavelength',
+                          f'{k}: an integer wavelength is served in layout {dd["served"]["layout"]} and refused in layout '
+                          f'{dd["refused"]["layout"]} ({dd["refused"]["error"]})', {'case': dd['refused'], 'accepted': dd['served']})
+    return {label + '_calls': len(cases) - n_ref, label + '_reference_calls': n_ref, label + '_elements_compared': n_elem,
+            label + '_layout_classes': len({(k, lay) for (k, lay, _) in outcome}),
+            label + '_refused_as_0d_too': n_refused_both,
+            label + '_float_layouts_refused_in_every_variant': sorted(refused)[:40],
+            label + '_integer_wavelength_refused': int_refused}
+
+
+def layout_sweep(ctx, rng, scale=1):
+    thorough = ctx.tier != 'quick'
+    cov = layout_contract(ctx, geometry_layout_cases(rng, (12 if thorough else 4) * scale), 'geometry_layout')
+    cov.update(layout_contract(ctx, tof_layout_cases(rng, (40 if thorough else 8) * scale), 'tof_layout'))
+    cov['layout_rule'] = ('gravity kernels (orthogonal and generic dispatch, yz-plane): incident_beam {0-d, [det]} x scattered_beam '
+                          '{0-d, [det], [det,pix]} x wavelength {0-d, [wavelength], [det], [det,wavelength], [wavelength,det]} x wavelength '
+                          'dtype {float64, float32; int64/int32 on every 4th layout} x unit variants (length of each beam, wavelength, '
+                          'gravity drawn independently; float64 always includes the all-SI variant); two_theta over the beam layouts; '
+                          'tof.py kernels: sampled unit x dtype grid points replicated into 3 of 6 layout patterns (data operands '
+                          '[event] / [det,event] / [event,det] / [det] / 0-d against the other operands 0-d / [det]); every element '
+                          'is compared with the all-0-d call')
+    return cov
+
+
 DATA_OPERANDS = {
     'wavelength_from_tof': ['tof'], 'dspacing_from_tof': ['tof'], 'energy_from_tof': ['tof'],
     'energy_from_wavelength': ['wavelength'], 'wavelength_from_energy': ['energy'],
@@ -353,6 +653,7 @@ def search(ctx, broken):
     rng = random.Random(ctx.seed + 7)
     n0 = len(ctx.violations)
     geometry_equivariance(ctx, rng)
+    layout_sweep(ctx, rng, scale=3)
     groups = []
     for kname in DATA_OPERANDS:
         allc = list(grid(kname))
